@@ -133,6 +133,8 @@ def expect_whole(ref_arr, v, n):
             return 'may', None
         if a.size not in (1, n):
             return 'fail', None
+        if a.ndim == 1 and a.size != n:
+            return 'fail', None  # a one-element Python sequence is a sequence of the wrong length, not "a single value"
         if a.ndim != 1 or a.size != n:
             return 'may', None
         if _truncates(dt, v) or _lossy(dt, v):
@@ -196,7 +198,7 @@ def expect_add(v, dtype, n, default_dtype=None):
         if a.dtype == object:
             return 'may', None
         if a.size != n:
-            return ('fail', None) if a.size != 1 else ('may', None)
+            return ('fail', None) if (a.size != 1 or a.ndim == 1) else ('may', None)
         if a.ndim != 1:
             return 'may', None
         flat = a
